@@ -19,6 +19,13 @@ Definition eval_case (c : framing_kind * bool * fin * list (list N)) : string :=
   let '(k, resume, fi, n) := c in
   show_run (run_session k resume n fi) ++ "|" ++ (if resume then "-" else show_frames (spec_of k n fi)).
 
+(* the same plus the space offered to the byte source at every read (instrumented loop,
+   Proofs/ReaderTrace.v: its first component is run_session): "model|spec|o1,o2,.." *)
+Definition eval_case_tr (c : framing_kind * bool * fin * list (list N)) : string :=
+  let '(k, resume, fi, n) := c in
+  let x := run_session_tr k resume n fi in
+  show_run (fst x) ++ "|" ++ (if resume then "-" else show_frames (spec_of k n fi)) ++ "|" ++ show_list show_nat "," (snd x).
+
 (* client: several connections over one ClientLoop (reader reset at connect); "c1 / c2 / .." *)
 Definition eval_client (c : list (list (list N) * fin)) : string :=
   show_list show_run " / " (client_connections true (reader_new KTcp) c) ++ "|" ++
